@@ -2,10 +2,18 @@
 `elfio::load(std::istream&, bool is_lazy)` and everything under it:
 header gate, `elf_header_impl::load`, `load_sections` (section header + data, eager or lazy,
 name resolution through the section-name string table), `load_segments` (program header +
-data, membership).  Guards are the generated expressions (Gen/Sites*.lean).
+data, membership).  Every integer / boolean decision of these functions (gate tests, loop
+conditions, class dispatch, bounds tests, null tests, completion tests) and the size computations are
+the generated expressions (Gen/Sites.lean, Gen/SitesLoad.lean, Gen/SitesC08.lean), reached through
+small class-dispatch helpers; their hand forms, and the structural reference loops the proofs use,
+are in Lemmas/LoadTie.lean.  Hand-modelled: statement order, the stream calls themselves
+(Model/IStream.lean), `std::vector` / `unique_ptr` bookkeeping, the address translator lookup, the
+`Int` arithmetic of the header offsets (tied to the generated expression by
+`LoadTie.load_sections_hdr_off_val`), allocation failure and decompression (not modelled).
 Allocation requests (`new (nothrow) char[n]`) are logged.
 -/
 import ElfioVerif.Model.Obj
+import ElfioVerif.Gen.SitesC08
 namespace ElfioVerif
 open Gen
 
@@ -27,24 +35,78 @@ def streamSizeOf (tr : List Trans) (st : IStream) : IStream × BitVec 64 :=
   let st1 := st.seekEnd
   let (st2, p) := st1.tellg
   let st3 := if sec64_load_unseekable tr.isEmpty st.fail st2.fail then st2.clear else st2
-  (st3, BitVec.ofInt 64 p)
+  (st3, sec64_load_stream_size (BitVec.ofInt 64 p))
 
 /-- `segment_impl::load` has the same guard as `section_impl::load` -/
 theorem seg64_load_unseekable_eq : seg64_load_unseekable = sec64_load_unseekable := rfl
+
+/-! ### class dispatch of the generated conditions (one definition per template instantiation) -/
+
+/-- `section_impl<T>::load` : `static_cast<size_t>( stream.gcount() ) != sizeof( header )` -/
+def secShortHdr (c : Cls) (gcount : BitVec 64) : Bool :=
+  match c with | .c32 => sec32_load_short_hdr gcount | .c64 => sec64_load_short_hdr gcount
+/-- `section_impl<T>::load` : `!( is_lazy || is_loaded )` -/
+def secEager (c : Cls) (isLazy isLoaded : Bool) : Bool :=
+  match c with | .c32 => sec32_load_eager isLazy isLoaded | .c64 => sec64_load_eager isLazy isLoaded
+/-- `segment_impl<T>::load` : `!( is_lazy || is_loaded )` -/
+def segEager (c : Cls) (isLazy isLoaded : Bool) : Bool :=
+  match c with | .c32 => seg32_load_eager isLazy isLoaded | .c64 => seg64_load_eager isLazy isLoaded
+/-- `segment_impl<T>::load_data` : `pstream->seekg( p_offset )` -/
+def segSeekTo (c : Cls) (off : BitVec 64) : BitVec 64 :=
+  match c with | .c32 => seg32_load_data_seek off | .c64 => seg64_load_data_seek off
+/-- `segment_impl<T>::load_data` : `pstream->read( data.get(), size )` -/
+def segReadN (c : Cls) (size : BitVec 64) : BitVec 64 :=
+  match c with | .c32 => seg32_load_data_readn size | .c64 => seg64_load_data_readn size
+/-- `segment_impl<T>::load_data` : `if ( is_complete )` -/
+def segDataOk (c : Cls) (isComplete : Bool) : Bool :=
+  match c with | .c32 => seg32_load_data_ok isComplete | .c64 => seg64_load_data_ok isComplete
+
+/-- `section_impl<T>::load_data` : `nullptr == data && SHT_NULL != get_type() && SHT_NOBITS != get_type()` -/
+def secNeedsLoad (c : Cls) (dataIsNull : Bool) (ty : BitVec 32) : Bool :=
+  match c with | .c32 => sec32_load_data_need dataIsNull ty | .c64 => sec64_load_data_need dataIsNull ty
+/-- `section_impl<T>::load_data` : `size > numeric_limits<size_t>::max() - 1` -/
+def secSizeT (c : Cls) (size : BitVec 64) : Bool :=
+  match c with | .c32 => sec32_load_data_sizet size | .c64 => sec64_load_data_sizet size
+/-- `section_impl<T>::load_data` : `new (std::nothrow) char[size_t(size) + 1]` -/
+def secAllocN (c : Cls) (size : BitVec 64) : BitVec 64 :=
+  match c with | .c32 => sec32_load_data_alloc size | .c64 => sec64_load_data_alloc size
+/-- `section_impl<T>::load_data` : `(0 != size) && (nullptr != data)` -/
+def secDoRead (c : Cls) (size : BitVec 64) (dataIsNull : Bool) : Bool :=
+  match c with | .c32 => sec32_load_data_do_read size dataIsNull | .c64 => sec64_load_data_do_read size dataIsNull
+/-- `section_impl<T>::load_data` : `pstream->seekg(sh_offset)` -/
+def secSeekTo (c : Cls) (off : BitVec 64) : BitVec 64 :=
+  match c with | .c32 => sec32_load_data_seek off | .c64 => sec64_load_data_seek off
+/-- `section_impl<T>::load_data` : `pstream->read(data.get(), size)` -/
+def secReadN (c : Cls) (size : BitVec 64) : BitVec 64 :=
+  match c with | .c32 => sec32_load_data_readn size | .c64 => sec64_load_data_readn size
+/-- `section_impl<T>::load_data` : `if (!is_complete)` -/
+def secIncomplete (c : Cls) (isComplete : Bool) : Bool :=
+  match c with | .c32 => sec32_load_data_incomplete isComplete | .c64 => sec64_load_data_incomplete isComplete
+/-- `section_impl<T>::load_data` : `if (size != 0)` after a failed allocation -/
+def secAllocFailed (c : Cls) (size : BitVec 64) : Bool :=
+  match c with | .c32 => sec32_load_data_alloc_failed size | .c64 => sec64_load_data_alloc_failed size
+/-- `section_impl<T>::load_data` :
+    `is_loaded = (nullptr != data) || (SHT_NULL == get_type()) || (SHT_NOBITS == get_type())` -/
+def secLoadedAfter (c : Cls) (dataIsNull : Bool) (ty : BitVec 32) : Bool :=
+  match c with | .c32 => sec32_load_data_loaded dataIsNull ty | .c64 => sec64_load_data_loaded dataIsNull ty
 
 def isNullOrNobitsTy (t : BitVec 32) : Bool :=
   t == BitVec.ofNat 32 SHT_NULL || t == BitVec.ofNat 32 SHT_NOBITS
 
 /-- a read of `n` bytes at absolute position `off` that neither depends on nor forgets an
-    earlier failure (the `clear(); seekg; read; setstate(earlier)` sequence) -/
+    earlier failure (the `clear(); seekg; read; setstate(earlier)` sequence of
+    `section_impl::load_data`); the third component is
+    `is_complete = static_cast<Elf_Xword>(pstream->gcount()) == size` (the same expression in both
+    instantiations, `LoadTie.sec32_load_data_complete_eq`) -/
 def isolatedRead (st : IStream) (off : BitVec 64) (n : BitVec 64) : IStream × Bytes × Bool :=
   let st1 := (st.clear).seekg off.toInt
-  let (st2, got, complete) :=
-    if n.toInt < 0 then (st1.readNeg, ([] : Bytes), false)
+  let (st2, got) :=
+    if n.toInt < 0 then (st1.readNeg, ([] : Bytes))
     else
       let r := st1.read n.toNat
-      (r.1, r.2, r.1.gcount == n.toNat)
-  ({ st2 with eof := st2.eof || st.eof, fail := st2.fail || st.fail }, got, complete)
+      (r.1, r.2)
+  ({ st2 with eof := st2.eof || st.eof, fail := st2.fail || st.fail }, got,
+   sec64_load_data_complete (BitVec.ofNat 64 st2.gcount) n)
 
 /-- `section_impl::load_data()` -/
 def secLoadData (c : Cls) (tr : List Trans) (ls : LoadSt) (b : SecBuf) : LoadSt × SecBuf × Bool :=
@@ -58,18 +120,22 @@ def secLoadData (c : Cls) (tr : List Trans) (ls : LoadSt) (b : SecBuf) : LoadSt 
     | .c32 => sec32_load_data_size_gt size b.streamSize off
     | .c64 => sec64_load_data_size_gt size b.streamSize off
   if sizeGt then (ls, b, false) else
-  if b.data.isNone && !isNullOrNobitsTy b.stype then
-    if sec64_load_data_sizet size then (ls, b, false) else
-    let n := (sec64_load_data_alloc size).toNat
+  if secNeedsLoad c b.data.isNone b.stype then
+    if secSizeT c size then (ls, b, false) else
+    let n := (secAllocN c size).toNat
     let ls := { ls with allocs := ls.allocs ++ [n] }
-    if size != 0 then
-      let (st, got, complete) := isolatedRead ls.st off size
+    -- allocation failure is not modelled: `data` is non-null after the `reset`
+    if secDoRead c size false then
+      let (st, got, complete) := isolatedRead ls.st (secSeekTo c off) (secReadN c size)
       let ls := { ls with st := st }
-      if !complete then (ls, { b with data := none, dataSize := 0 }, false)
+      if secIncomplete c complete then (ls, { b with data := none, dataSize := 0 }, false)
       else (ls, { b with data := some (got ++ [0]), dataSize := size, isLoaded := true }, true)
+    else if secAllocFailed c size then
+      -- `return false; // Failed to allocate required memory` : dead with a non-null `data`
+      (ls, { b with data := some (alloc 1), dataSize := 0 }, false)
     else (ls, { b with data := some (alloc 1), dataSize := 0, isLoaded := true }, true)
   else
-    let l := b.data.isSome || isNullOrNobitsTy b.stype
+    let l := secLoadedAfter c b.data.isNone b.stype
     (ls, { b with isLoaded := l }, l)
 
 /-- `section_impl::get_data()` against the real stream -/
@@ -97,12 +163,12 @@ def secLoad (c : Cls) (enc : Enc) (tr : List Trans) (ls : LoadSt) (hdrOff : Int)
   let b0 : SecBuf := { cls := c, stype := 0, size := 0, data := none, dataSize := 0, streamSize := ss,
                        translatorEmpty := tr.isEmpty, isLazy := isLazy, index := idx }
   let ls := { ls with st := st }
-  if st.gcount != shdrSize c then
+  if secShortHdr c (BitVec.ofNat 64 st.gcount) then
     (ls, { b0 with addrSet := true })
   else
     let b := decodeShdr c enc got b0
     let b := { b with fileData := fileDataOf c tr st b }
-    if sec64_load_eager isLazy b.isLoaded then
+    if secEager c isLazy b.isLoaded then
       let (ls, b) := secGetData c tr ls b
       (ls, { b with addrSet := true })
     else (ls, { b with addrSet := true })
@@ -128,12 +194,13 @@ def segLoadData (c : Cls) (tr : List Trans) (ls : LoadSt) (g : Seg) : LoadSt × 
   let n := (match c with | .c32 => seg32_load_data_alloc size | .c64 => seg64_load_data_alloc size).toNat
   let ls := { ls with allocs := ls.allocs ++ [n] }
   -- `pstream->read(...)` converted to bool: the stream must not be failed after the read
-  let st1 := (ls.st.clear).seekg off.toInt
-  let (st2, got) := if size.toInt < 0 then (st1.readNeg, ([] : Bytes)) else st1.read size.toNat
-  let ok := !st2.fail
+  let st1 := (ls.st.clear).seekg (segSeekTo c off).toInt
+  let (st2, got) :=
+    if (segReadN c size).toInt < 0 then (st1.readNeg, ([] : Bytes)) else st1.read (segReadN c size).toNat
+  let isComplete := !st2.fail
   let st3 := { st2 with eof := st2.eof || ls.st.eof, fail := st2.fail || ls.st.fail }
   let ls := { ls with st := st3 }
-  if ok then (ls, { g with data := some (got ++ [0]), isLoaded := true }, true)
+  if segDataOk c isComplete then (ls, { g with data := some (got ++ [0]), isLoaded := true }, true)
   else (ls, { g with data := none }, false)
 
 def segGetData (c : Cls) (tr : List Trans) (ls : LoadSt) (g : Seg) : LoadSt × Seg :=
@@ -152,28 +219,32 @@ def segLoad (c : Cls) (enc : Enc) (tr : List Trans) (ls : LoadSt) (hdrOff : Int)
   let raw := wr (List.replicate (phdrSize c) 0) 0 got
   let g : Seg := decodePhdr c enc raw { streamSize := ss, isLazy := isLazy, offsetSet := true }
   let ls := { ls with st := st }
-  if !(isLazy || g.isLoaded) then
+  if segEager c isLazy g.isLoaded then
     let (ls, g, ok) := segLoadData c tr ls g
     (ls, g, ok)
   else (ls, g, true)
 
 /-! ### bounded string lookup used for section names (`string_section_accessor::get_string`) -/
 
-/-- bytes of `data` from `idx` up to (excluding) the first NUL, searching `[idx, size)`;
-    the search is a checked read: it faults only if it would leave the allocation before
-    finding a terminator -/
-def cstrAt (site : String) (data : Bytes) (size idx : Nat) : M (Option Bytes) :=
-  if idx ≥ size then pure none else
-  let avail := slice data idx (size - idx)
+/-- `memchr( data + idx, '\0', n )` as a checked read: the bytes from `idx` up to (excluding) the
+    first NUL among the next `n`; it faults only if it would leave the allocation before finding a
+    terminator -/
+def cstrScan (site : String) (data : Bytes) (idx n : Nat) : M (Option Bytes) :=
+  let avail := slice data idx n
   match avail.idxOf? (0 : UInt8) with
   | some k => pure (some (avail.take k))
-  | none => if avail.length < size - idx then throw (.oobRead site) else pure none
+  | none => if avail.length < n then throw (.oobRead site) else pure none
 
-/-- `get_string(index)` on a section (state after the implied `get_data()`) -/
+/-- `get_string(index)` on a section (state after the implied `get_data()`): the bounds tests and the
+    size arithmetic are the generated expressions of `get_string` (Gen/SitesC08.lean) -/
 def getString (b : SecBuf) (index : BitVec 32) : M (Option Bytes) :=
+  let sectionSize := str_get_section_size b.size
+  if str_get_idx_ge_size index sectionSize || b.data.isNone then pure none else
+  let remaining := str_get_remaining sectionSize index
+  if str_get_underflow remaining sectionSize then pure none else
   match b.data with
   | none => pure none
-  | some d => cstrAt "get_string/memchr" d b.size.toNat index.toNat
+  | some d => cstrScan "get_string/memchr" d index.toNat (str_get_memchr_n remaining).toNat
 
 /-! ### the loader -/
 
@@ -188,23 +259,90 @@ def clsOfByte (b : Nat) : Option Cls :=
 def encOfByte (b : Nat) : Option Enc :=
   if b = ELFDATA2LSB then some .lsb else if b = ELFDATA2MSB then some .msb else none
 
-def loadSectionsLoop (c : Cls) (enc : Enc) (tr : List Trans) (isLazy : Bool) (shoff : Int) (entsize : Nat) :
-    Nat → Nat → LoadSt → List SecBuf → LoadSt × List SecBuf
+/-- `elf_header_impl<T>::load` : `return ( stream.gcount() == sizeof( header ) );` -/
+def hdrLoadOk (c : Cls) (gcount : BitVec 64) : Bool :=
+  match c with | .c32 => hdr32_load_ok gcount | .c64 => hdr64_load_ok gcount
+
+/-- `e_ident[i]` as the `char` the C++ reads -/
+def identChar (ident : Bytes) (i : Nat) : BitVec 8 := BitVec.ofNat 8 (ident.getD i 0).toNat
+
+/-- the first `for ( Elf_Half i = 0; i < num; ++i )` of `elfio::load_sections`: create and load one
+    section per header.  The loop condition is the generated one; `fuel` only makes the recursion
+    structural (`num` iterations suffice: `LoadTie.loadSectionsLoopG_eq`).  The header offset
+    `streamoff(offset) + streampos(i) * entry_size` is computed over `Int`; it equals the generated
+    `load_sections_hdr_off` whenever the C++ addition does not overflow (`LoadTie.load_sections_hdr_off_val`). -/
+def loadSectionsLoopG (c : Cls) (enc : Enc) (tr : List Trans) (isLazy : Bool) (shoff : Int) (entsize : Nat)
+    (num : BitVec 16) : Nat → BitVec 16 → LoadSt → List SecBuf → LoadSt × List SecBuf
   | 0, _, ls, acc => (ls, acc.reverse)
-  | n + 1, i, ls, acc =>
-    let (ls, b) := secLoad c enc tr ls (shoff + (Int.ofNat i) * (Int.ofNat entsize)) isLazy i
-    loadSectionsLoop c enc tr isLazy shoff entsize n (i + 1) ls (b :: acc)
+  | fuel + 1, i, ls, acc =>
+    if load_sections_for i num then
+      let (ls, b) := secLoad c enc tr ls (shoff + (Int.ofNat i.toNat) * (Int.ofNat entsize)) isLazy i.toNat
+      loadSectionsLoopG c enc tr isLazy shoff entsize num fuel (i + 1) ls (b :: acc)
+    else (ls, acc.reverse)
 
 def setAt {α} (l : List α) (i : Nat) (x : α) : List α := l.set i x
 
-/-- names: `sections[i]->set_name(str_reader.get_string(sections[i]->get_name_string_offset()))` -/
-def resolveNames (strtab : SecBuf) : List SecBuf → M (List SecBuf)
-  | [] => pure []
-  | b :: rest => do
-    let r ← getString strtab b.nameOff
-    let b := match r with | some s => { b with name := s } | none => b
-    let rest ← resolveNames strtab rest
-    pure (b :: rest)
+/-- the second `for ( Elf_Half i = 0; i < num; ++i )` of `load_sections`, over `sections[i]` (a null
+    `sections[i]` would be dereferenced); `fuel` as in `loadSectionsLoopG`.  On the `num` sections just
+    created it is `resolveNames` (`LoadTie.resolveNamesG_eq`). -/
+def resolveNamesG (strtab : SecBuf) (num : BitVec 16) : Nat → BitVec 16 → List SecBuf → M (List SecBuf)
+  | 0, _, secs => pure secs
+  | fuel + 1, i, secs =>
+    if load_sections_names_for i num then
+      match secs[i.toNat]? with
+      | none => throw (.nullDeref "load_sections/sections[i]")
+      | some b =>
+        getString strtab b.nameOff >>= fun r =>
+          let b := if load_sections_name_found r.isSome then
+                     (match r with | some s => { b with name := s } | none => b)
+                   else b
+          resolveNamesG strtab num fuel (i + 1) (secs.set i.toNat b)
+    else pure secs
+
+/-- What the driver executes for `resolveNamesG`: the same loop over an `Array` (`sections[i]` and the
+    write-back are O(1) instead of O(i) on a list — 65535 zeroed sections made the list version take
+    minutes).  Equal to `resolveNamesG` by the proved equation below, not by assumption. -/
+def resolveNamesA (strtab : SecBuf) (num : BitVec 16) : Nat → BitVec 16 → Array SecBuf → M (Array SecBuf)
+  | 0, _, secs => pure secs
+  | fuel + 1, i, secs =>
+    if load_sections_names_for i num then
+      match secs[i.toNat]? with
+      | none => throw (.nullDeref "load_sections/sections[i]")
+      | some b =>
+        getString strtab b.nameOff >>= fun r =>
+          let b := if load_sections_name_found r.isSome then
+                     (match r with | some s => { b with name := s } | none => b)
+                   else b
+          resolveNamesA strtab num fuel (i + 1) (secs.setIfInBounds i.toNat b)
+    else pure secs
+
+def resolveNamesGImpl (strtab : SecBuf) (num : BitVec 16) (fuel : Nat) (i : BitVec 16) (secs : List SecBuf) :
+    M (List SecBuf) :=
+  (resolveNamesA strtab num fuel i secs.toArray).map Array.toList
+
+theorem resolveNamesA_toList (strtab : SecBuf) (num : BitVec 16) (fuel : Nat) (i : BitVec 16) (a : Array SecBuf) :
+    (resolveNamesA strtab num fuel i a).map Array.toList = resolveNamesG strtab num fuel i a.toList := by
+  induction fuel generalizing i a with
+  | zero => rfl
+  | succ n ih =>
+    unfold resolveNamesA resolveNamesG
+    split
+    · rw [← Array.getElem?_toList]
+      cases h : a.toList[i.toNat]? with
+      | none => rfl
+      | some b =>
+        dsimp only
+        cases hg : getString strtab b.nameOff with
+        | error e => rfl
+        | ok r =>
+          show (resolveNamesA strtab num n (i + 1) _).map Array.toList = resolveNamesG strtab num n (i + 1) _
+          rw [ih, Array.toList_setIfInBounds]
+    · rfl
+
+@[csimp] theorem resolveNamesG_eq_impl : @resolveNamesG = @resolveNamesGImpl := by
+  funext strtab num fuel i secs
+  unfold resolveNamesGImpl
+  rw [resolveNamesA_toList]
 
 def memberOf (g : Seg) (b : SecBuf) : Bool :=
   let segEndOff := load_segments_seg_end_off g.offset g.filesz
@@ -212,16 +350,72 @@ def memberOf (g : Seg) (b : SecBuf) : Bool :=
   load_segments_member b.flags b.addr b.size g.vaddr segEndAddr b.offset g.offset segEndOff
     && !(load_segments_tls_skip g.stype b.flags)
 
-def loadSegmentsLoop (c : Cls) (enc : Enc) (tr : List Trans) (isLazy : Bool) (phoff : Int) (entsize : Nat)
-    (secs : List SecBuf) : Nat → Nat → LoadSt → List Seg → LoadSt × List Seg × Bool
+/-- `if ( file_class == ELFCLASS64 ) new segment_impl<Elf64_Phdr> else if ( file_class == ELFCLASS32 )
+    new segment_impl<Elf32_Phdr> else { pop_back; return false; }` : the instantiation chosen -/
+def segClassOf (fileClass : BitVec 8) : Option Cls :=
+  if load_segments_is64 fileClass then some .c64
+  else if load_segments_is32 fileClass then some .c32
+  else none
+
+/-- the `for ( Elf_Half i = 0; i < num; ++i )` of `elfio::load_segments` (loop condition, class
+    dispatch and failure test are the generated ones; `fuel` as in `loadSectionsLoopG`) -/
+def loadSegmentsLoopG (enc : Enc) (tr : List Trans) (isLazy : Bool) (phoff : Int) (entsize : Nat)
+    (secs : List SecBuf) (fileClass : BitVec 8) (num : BitVec 16) :
+    Nat → BitVec 16 → LoadSt → List Seg → LoadSt × List Seg × Bool
   | 0, _, ls, acc => (ls, acc.reverse, true)
-  | n + 1, i, ls, acc =>
-    let (ls, g, ok) := segLoad c enc tr ls (phoff + (Int.ofNat i) * (Int.ofNat entsize)) isLazy
-    if !ok || ls.st.fail then (ls, acc.reverse, false)
-    else
-      let members := (secs.filter (memberOf g)).map (fun b => BitVec.ofNat 16 b.index)
-      let g := { g with index := i, secs := members }
-      loadSegmentsLoop c enc tr isLazy phoff entsize secs n (i + 1) ls (g :: acc)
+  | fuel + 1, i, ls, acc =>
+    if load_segments_for i num then
+      match segClassOf fileClass with
+      | none => (ls, (acc.drop 1).reverse, false)
+      | some c =>
+        let (ls, g, ok) := segLoad c enc tr ls (phoff + (Int.ofNat i.toNat) * (Int.ofNat entsize)) isLazy
+        if load_segments_failed ok ls.st.fail then (ls, acc.reverse, false)
+        else
+          let members := (secs.filter (memberOf g)).map (fun b => BitVec.ofNat 16 b.index)
+          let g := { g with index := i.toNat, secs := members }
+          loadSegmentsLoopG enc tr isLazy phoff entsize secs fileClass num fuel (i + 1) ls (g :: acc)
+    else (ls, acc.reverse, true)
+
+/-- `elfio::load_sections( stream, is_lazy )` on the loaded header `hdr` (its `bool` result is ignored
+    by `load`) -/
+def loadSectionsM (c : Cls) (enc : Enc) (tr : List Trans) (isLazy : Bool) (hdr : Bytes) (st : IStream) :
+    M (LoadSt × List SecBuf) :=
+  let num := Hdr.e_shnum c enc hdr
+  let entsize := Hdr.e_shentsize c enc hdr
+  let shoff := Hdr.e_shoff c enc hdr
+  let fileClass : BitVec 8 := Hdr.ident hdr EI_CLASS
+  let ls : LoadSt := { st := st }
+  if load_sections_entsize_bad num fileClass entsize then pure (ls, ([] : List SecBuf)) else
+  let (ls, secs) := loadSectionsLoopG c enc tr isLazy shoff.toInt entsize.toNat num num.toNat 0 ls []
+  let shstrndx := Hdr.e_shstrndx c enc hdr
+  if load_sections_has_strtab shstrndx then
+    -- `string_section_accessor str_reader( sections[shstrndx] )` : a null section yields no names
+    match secs[shstrndx.toNat]? with
+    | none => pure (ls, secs)
+    | some strtab =>
+      let (ls, strtab) := secGetData c tr ls strtab
+      let secs := secs.set shstrndx.toNat strtab
+      (resolveNamesG strtab num num.toNat 0 secs) >>= fun secs => pure (ls, secs)
+  else pure (ls, secs)
+
+/-- `elfio::load_segments( stream, is_lazy )` -/
+def loadSegmentsM (c : Cls) (enc : Enc) (tr : List Trans) (isLazy : Bool) (hdr : Bytes) (ls : LoadSt)
+    (secs : List SecBuf) : Option (LoadSt × List Seg × Bool) :=
+  let pnum := Hdr.e_phnum c enc hdr
+  let pentsize := Hdr.e_phentsize c enc hdr
+  let phoff := Hdr.e_phoff c enc hdr
+  let fileClass : BitVec 8 := Hdr.ident hdr EI_CLASS
+  if load_segments_entsize_bad pnum fileClass pentsize then none
+  else some (loadSegmentsLoopG enc tr isLazy phoff.toInt pentsize.toNat secs fileClass pnum pnum.toNat 0 ls [])
+
+/-- `load_sections( stream, is_lazy ); bool is_still_good = load_segments( stream, is_lazy );`
+    `return is_still_good;` on the object `o` whose header struct is `hdr` -/
+def loadTables (o : Obj) (c : Cls) (enc : Enc) (hdr : Bytes) (st : IStream) (isLazy : Bool) : M LoadRes :=
+  loadSectionsM c enc o.trans isLazy hdr st >>= fun p =>
+    match loadSegmentsM c enc o.trans isLazy hdr p.1 p.2 with
+    | none => pure { obj := { o with secs := p.2, stream := p.1.st }, ok := false, allocs := p.1.allocs }
+    | some r =>
+      pure { obj := { o with secs := p.2, segs := r.2.1, stream := r.1.st }, ok := r.2.2, allocs := r.1.allocs }
 
 /-- `elfio::load(stream, is_lazy)` on an object `o` (its header/convertor survive a failed gate) -/
 def load (o : Obj) (st : IStream) (isLazy : Bool) : M LoadRes := do
@@ -230,48 +424,24 @@ def load (o : Obj) (st : IStream) (isLazy : Bool) : M LoadRes := do
   let (st, ident) := st.read 16
   let fail (o : Obj) (st : IStream) (al : List Nat) : M LoadRes :=
     pure { obj := { o with stream := st }, ok := false, allocs := al }
-  if st.gcount != 16 then fail o st [] else
+  let idc := identChar ident
+  if load_bad_magic (BitVec.ofNat 64 st.gcount) (idc EI_MAG0) (idc EI_MAG1) (idc EI_MAG2) (idc EI_MAG3) then
+    fail o st [] else
+  if load_bad_class (idc EI_CLASS) then fail o st [] else
+  if load_bad_enc (idc EI_DATA) then fail o st [] else
   let idb (i : Nat) : Nat := (ident.getD i 0).toNat
-  if idb 0 != ELFMAG0 || idb 1 != ELFMAG1 || idb 2 != ELFMAG2 || idb 3 != ELFMAG3 then fail o st [] else
+  -- convertor.setup; create_header (nullptr for an unknown class)
+  if load_no_header (clsOfByte (idb EI_CLASS)).isNone then fail o st [] else
   match clsOfByte (idb EI_CLASS), encOfByte (idb EI_DATA) with
   | none, _ => fail o st []
   | some _, none => fail o st []
   | some c, some enc =>
-    -- convertor.setup; create_header; header->load
+    -- header->load
     let st := st.seekg (trApply o.trans 0)
     let (st, got) := st.read (ehdrSize c)
     let hdr := wr (Hdr.create c enc (idb EI_DATA)) 0 got
     let o := { o with cls := c, enc := enc, hdr := some hdr }
-    if st.gcount != ehdrSize c then fail o st [] else
-    -- load_sections
-    let num := Hdr.e_shnum c enc hdr
-    let entsize := Hdr.e_shentsize c enc hdr
-    let shoff := Hdr.e_shoff c enc hdr
-    let clsByte : BitVec 8 := Hdr.ident hdr EI_CLASS
-    let ls : LoadSt := { st := st }
-    let (ls, secs) :=
-      if load_sections_entsize_bad num clsByte entsize then (ls, ([] : List SecBuf))
-      else loadSectionsLoop c enc o.trans isLazy shoff.toInt entsize.toNat num.toNat 0 ls []
-    let (ls, secs) ←
-      if load_sections_entsize_bad num clsByte entsize then pure (ls, secs) else do
-        let shstrndx := Hdr.e_shstrndx c enc hdr
-        if shstrndx == BitVec.ofNat 16 SHN_UNDEF then pure (ls, secs) else
-        match secs[shstrndx.toNat]? with
-        | none => pure (ls, secs)
-        | some strtab =>
-          let (ls, strtab) := secGetData c o.trans ls strtab
-          let secs := secs.set shstrndx.toNat strtab
-          let secs ← resolveNames strtab secs
-          pure (ls, secs)
-    -- load_segments
-    let pnum := Hdr.e_phnum c enc hdr
-    let pentsize := Hdr.e_phentsize c enc hdr
-    let phoff := Hdr.e_phoff c enc hdr
-    if load_segments_entsize_bad pnum clsByte pentsize then
-      pure { obj := { o with secs := secs, stream := ls.st }, ok := false, allocs := ls.allocs }
-    else
-      let (ls, segs, ok) :=
-        loadSegmentsLoop c enc o.trans isLazy phoff.toInt pentsize.toNat secs pnum.toNat 0 ls []
-      pure { obj := { o with secs := secs, segs := segs, stream := ls.st }, ok := ok, allocs := ls.allocs }
+    if load_hdr_failed (hdrLoadOk c (BitVec.ofNat 64 st.gcount)) then fail o st [] else
+    loadTables o c enc hdr st isLazy
 
 end ElfioVerif
